@@ -8,41 +8,31 @@ From RC Require Import lib.PyStr lib.Name gen.BzlConstsC19 model.BzlLockC19 proo
 Import ListNotations.
 Open Scope string_scope.
 
-(* For every well-formed view (every pin once under the compiler's normalisation; version,
-   sha256, >= 1 requirer annotation, URL or wheel of a declared find-links directory), inside
-   the guard fl_guard (wheels come from the single find-links directory and the link the
-   writer emits for them is dir/file), the loader returns exactly lock_view: every pin once,
-   in order, with its version, sha256, url or wheel label, sorted via and deps.
-   The unguarded statement (roundtrip_full_statement) is refuted below. *)
-Theorem C19_roundtrip_partial :
-  forall lock constraint v, wf_view v = true -> fl_guard v = true ->
+(* For EVERY well-formed view (every pin once under the compiler's normalisation; version,
+   sha256, >= 1 requirer annotation, URL or wheel of a declared find-links directory; any
+   number of find-links directories, nested or upward) the loader returns exactly lock_view:
+   every pin once, in order, with its version, sha256, url or wheel label, sorted via and deps. *)
+Theorem C19_roundtrip :
+  forall lock constraint v, wf_view v = true ->
   parse_lockfile (write_bazel v) [] lock constraint = Ok (lock_view lock constraint v).
-Proof. exact roundtrip_partial. Qed.
-Print Assumptions C19_roundtrip_partial.
-
-(* the same under the readable guard: no wheel pins, or exactly one `--find-links` directory
-   whose name is a plain sub-directory name (file-name characters, not ".", not "..x") *)
-Theorem C19_roundtrip_simple_partial :
-  forall lock constraint v, wf_view v = true -> simple_guard v = true ->
-  parse_lockfile (write_bazel v) [] lock constraint = Ok (lock_view lock constraint v).
-Proof. exact roundtrip_simple_partial. Qed.
-Print Assumptions C19_roundtrip_simple_partial.
+Proof. exact roundtrip. Qed.
+Print Assumptions C19_roundtrip.
 
 (* with annotations: each project gets the data of the last annotation whose name sanitizes
    to its key ("names are matched across the two sides under the same normalisation") *)
-Theorem C19_roundtrip_annotations_partial :
-  forall lock constraint annots v, wf_view v = true -> fl_guard v = true ->
+Theorem C19_roundtrip_annotations :
+  forall lock constraint annots v, wf_view v = true ->
   parse_lockfile (write_bazel v) annots lock constraint
   = Ok (map (fun ke => (fst ke, set_annot_opt (annot_for annots (fst ke)) (snd ke)))
             (lock_view lock constraint v)).
-Proof. exact roundtrip_annotations_partial. Qed.
-Print Assumptions C19_roundtrip_annotations_partial.
+Proof. exact roundtrip_annotations. Qed.
+Print Assumptions C19_roundtrip_annotations.
 
-Theorem C19_never_rejected_partial :
-  forall lock constraint v, wf_view v = true -> fl_guard v = true ->
+Theorem C19_never_rejected :
+  forall lock constraint v, wf_view v = true ->
   exists d, parse_lockfile (write_bazel v) [] lock constraint = Ok d.
-Proof. exact never_rejected_partial. Qed.
-Print Assumptions C19_never_rejected_partial.
+Proof. exact never_rejected. Qed.
+Print Assumptions C19_never_rejected.
 
 (* sanitize_package_name (Starlark side) = normalize_project_name (Python side) on every
    name made of PEP 508 characters, from the two chains T1 reads *)
@@ -75,37 +65,37 @@ Theorem C19_deps_exact :
 Proof. exact deps_exact. Qed.
 Print Assumptions C19_deps_exact.
 
-(* the full-strength statements are false of the faithful model *)
-Theorem C19_roundtrip_full_statement_refuted :
-  ~ (forall lock c v, wf_view v = true ->
-     parse_lockfile (write_bazel v) [] lock c = Ok (lock_view lock c v)).
-Proof. exact roundtrip_full_statement_refuted. Qed.
-Print Assumptions C19_roundtrip_full_statement_refuted.
+(* the wheel label: below the lock's package it is <repo>//<pkg>:dir/file; the three layouts
+   the loader used to reject (two directories, nested, "../wheels") with their labels *)
+Theorem C19_wheel_label_below_package :
+  forall lock d f, startswith_any (d ++ "/" ++ f) [".."; "./../"] = false ->
+  wheel_label lock d f = Some (l_repo lock ++ "//" ++ l_pkg lock ++ ":" ++ d ++ "/" ++ f).
+Proof. exact wheel_label_below_package. Qed.
+Print Assumptions C19_wheel_label_below_package.
 
-Theorem C19_never_rejected_full_statement_refuted :
-  ~ (forall lock c v, wf_view v = true -> exists d, parse_lockfile (write_bazel v) [] lock c = Ok d).
-Proof. exact never_rejected_full_statement_refuted. Qed.
-Print Assumptions C19_never_rejected_full_statement_refuted.
+Theorem C19_former_witnesses_roundtrip :
+  wf_view wit_two_find_links = true /\ wf_view wit_nested_find_links = true /\ wf_view wit_parent_find_links = true
+  /\ whls (parse_lockfile (write_bazel wit_two_find_links) [] ex_lock None)
+     = Some [Some "@//pkg:w1/foo-1.0-py3-none-any.whl"; Some "@//pkg:w2/lone-1.0-py3-none-any.whl"]
+  /\ whls (parse_lockfile (write_bazel wit_nested_find_links) [] ex_lock None)
+     = Some [Some "@//pkg:sub/wheels/foo-1.0-py3-none-any.whl"]
+  /\ whls (parse_lockfile (write_bazel wit_parent_find_links) [] nested_lock None)
+     = Some [Some "@//pkg:wheels/foo-1.0-py3-none-any.whl"].
+Proof. exact former_witnesses_roundtrip. Qed.
+Print Assumptions C19_former_witnesses_roundtrip.
 
-(* the guard is necessary: three well-formed views the loader rejects *)
-Theorem C19_two_find_links_refuted :
-  exists v, wf_view v = true /\ parse_lockfile (write_bazel v) [] ex_lock None = Err ErrStartswithArgs.
-Proof. exact two_find_links_refuted. Qed.
-Print Assumptions C19_two_find_links_refuted.
+(* still refuted: an upward directory with more than one remaining segment gets a label
+   that loses the intermediate directory (file a/w/x/foo..., label //a:x/foo...) *)
+Theorem C19_deep_parent_label_refuted :
+  exists v, wf_view v = true
+            /\ whls (parse_lockfile (write_bazel v) [] (mkLabel "@" "a/b/c" "requirements.txt") None)
+               = Some [Some "@//a:x/foo-1.0-py3-none-any.whl"].
+Proof. exact deep_parent_label_refuted. Qed.
+Print Assumptions C19_deep_parent_label_refuted.
 
-Theorem C19_nested_find_links_refuted :
-  exists v, wf_view v = true /\ parse_lockfile (write_bazel v) [] ex_lock None = Err FailUrl.
-Proof. exact nested_find_links_refuted. Qed.
-Print Assumptions C19_nested_find_links_refuted.
-
-Theorem C19_parent_find_links_refuted :
-  exists v, wf_view v = true /\ parse_lockfile (write_bazel v) [] ex_lock None = Err FailUrl.
-Proof. exact parent_find_links_refuted. Qed.
-Print Assumptions C19_parent_find_links_refuted.
-
-(* and so is wf_view's sha256 condition *)
+(* and wf_view's sha256 condition is necessary *)
 Theorem C19_missing_sha256_refuted :
-  exists v, fl_guard v = true /\ parse_lockfile (write_bazel v) [] ex_lock None = Err FailHash.
+  exists v, parse_lockfile (write_bazel v) [] ex_lock None = Err FailHash.
 Proof. exact missing_sha256_refuted. Qed.
 Print Assumptions C19_missing_sha256_refuted.
 
